@@ -129,6 +129,23 @@ def cases(ctx):
             continue
         off = g.walk(bytes(w0))["rrs"][2][7]           # where the owner aaaaaaaa.fresh.zoneb. starts
         msgs.append(("straddle", straddle(n0 + (0x3FFF - d) - off), None))
+    # a question section that REPEATS a question (identical, and differing in case only): every copy is a question
+    for i in range(ctx.n(8, 30)):
+        origin = None if rng.random() < 0.8 else [b"rq", b"example", b""]
+        am = g.gen_query_like(rng, origin, "small", opcode=rng.choice([0, 0, 4, 2]))
+        if not am[2][0]:
+            am[2][0] = [[[b"Example", b"ORG", b""], g.IN, g.A, 0, None, 0, []]]
+        q = am[2][0][0]
+        copies = [list(q)]
+        for k in range(rng.choice([1, 1, 2])):
+            c = list(q)
+            if rng.random() < 0.6:
+                c[0] = [(l.swapcase() if rng.random() < 0.7 else l) for l in q[0]]
+            copies.append(c)
+        if rng.random() < 0.4:
+            copies.insert(1, [[b"other"] + list(q[0][-2:]) if len(q[0]) >= 2 else [b"other", b""], q[1], q[2], 0, None, 0, []])
+        am[2][0] = copies
+        msgs.append(("repeat-question", am, origin))
     for kind, am, origin in msgs:
         ctx.count("msg:" + kind)
         pad = 0
